@@ -141,7 +141,14 @@ def handle (line : String) : Except String Json := do
   else if op == "route" then
     let c := mkCatalog (← getCat (← j.getObjVal? "cat"))
     let parts ← getNames (← j.getObjVal? "parts")
+    let alias ← match j.getObjVal? "alias" with
+      | .ok v => if v.isNull then pure none else some <$> getNames v
+      | .error _ => pure none
+    let jInfo : Option TableInfo → Json
+      | none => .null
+      | some ti => .arr #[jOptName ti.integration, jNames ti.table, .arr (ti.aliases.map jNames).toArray, ti.bareName]
     return Json.mkObj [
+      ("tableInfo", jInfo (resolveTable c parts alias false)),
       ("simple", jRes (resolveSimple c parts)),
       ("join", jRes (resolveJoin c parts)),
       ("routeSimple", jRouted (routeSimple c parts)),
